@@ -161,7 +161,38 @@ func subC18Events(arg string) string {
 	for _, t := range c18Types {
 		subs = append(subs, t.sub)
 	}
-	events, errc := rig.adaptor.SubscribeEvent(subs)
+	// slow=<e>: endpoint e is connected but sits on every eth_subscribe request for a while
+	slowEp := -1
+	if v, ok := a["slow"]; ok {
+		slowEp = atoi(v)
+	}
+	if slowEp >= 0 && slowEp < nEp {
+		rig.nodes[slowEp].SubscribeDelay = 2500 * time.Millisecond
+	} else {
+		slowEp = -1
+	}
+	var early []string
+	type subRes struct {
+		ev chan interface{}
+		ec chan error
+	}
+	subDone := make(chan subRes, 1)
+	tSub := time.Now()
+	go func() {
+		ev, ec := rig.adaptor.SubscribeEvent(subs)
+		subDone <- subRes{ev, ec}
+	}()
+	var events chan interface{}
+	var errc chan error
+	select {
+	case r := <-subDone:
+		events, errc = r.ev, r.ec
+		if d := time.Since(tSub); slowEp >= 0 && d > 1200*time.Millisecond {
+			early = append(early, fmt.Sprintf("SubscribeEvent returned only after %v: it waited for the endpoint that is slow to answer eth_subscribe", d.Round(10*time.Millisecond)))
+		}
+	case <-time.After(20 * time.Second):
+		return "||SubscribeEvent did not return within 20 s"
+	}
 	// the node's reaction to a subscription error (dosnode.onchainLoop): disconnect the endpoint
 	// the error names
 	go func() {
@@ -173,9 +204,20 @@ func subC18Events(arg string) string {
 		}
 	}()
 	deadline := time.Now().Add(3 * time.Second)
-	for _, nd := range rig.nodes {
+	if slowEp >= 0 {
+		// the healthy endpoints are subscribed while the slow one is still thinking, and what they
+		// emit in the meantime is delivered
+		deadline = tSub.Add(1200 * time.Millisecond)
+	}
+	for e, nd := range rig.nodes {
+		if e == slowEp {
+			continue
+		}
 		for nd.Subscribers() < len(c18Types) && time.Now().Before(deadline) {
 			time.Sleep(2 * time.Millisecond)
+		}
+		if slowEp >= 0 && nd.Subscribers() < len(c18Types) {
+			early = append(early, fmt.Sprintf("endpoint %d answered every eth_subscribe at once, yet after 1.2 s only %d of the %d subscriptions were made on it (endpoint %d is slow to answer)", e, nd.Subscribers(), len(c18Types), slowEp))
 		}
 	}
 	// the history
@@ -247,6 +289,9 @@ func subC18Events(arg string) string {
 			}
 		}
 	}
+	if slowEp >= 0 {
+		plans[slowEp] = nil // the slow endpoint emits nothing itself
+	}
 	dropAt := -1
 	if dropEp >= 0 && dropEp < nEp {
 		dropAt = rng.Intn(len(plans[dropEp]) + 1)
@@ -302,7 +347,7 @@ collect:
 		}
 	}
 	// judge
-	var problems []string
+	problems := early
 	count := make([]int, nLogs)
 	for _, v := range got {
 		name, fields := describe(v)
@@ -395,6 +440,9 @@ func genC18(rng *hx.Rng, tier string, w *hx.Writer) error {
 			nEp, drop, early = 2, it%2, 1
 		}
 		arg := fmt.Sprintf("endpoints=%d,logs=%d,seed=%d,drop=%d,early=%d", nEp, nLogs, it+1, drop, early)
+		if it >= 6 && it%4 == 3 && nEp > 1 {
+			arg += fmt.Sprintf(",slow=%d", rng.Intn(nEp))
+		}
 		c := hx.Case{Entry: "firstevent", Op: 1, Tags: []string{"events", fmt.Sprintf("endpoints:%d", nEp), fmt.Sprintf("drop:%v", drop >= 0), "nt"}}
 		job := &c12job{sub: "c18-events", arg: arg, timeout: 60 * time.Second, group: "event-subscription"}
 		job.c = c
